@@ -217,7 +217,8 @@ def r14_4(ctx):
         a = c.args[0] if c.args else None
         ok = isinstance(a, ast.Subscript) and norm(a.value) == "SGR_STYLE_MAP"
         ctx.check(ok, dl.fq, short(c), f"{am.relpath}:{c.lineno}", "decoder parses only SGR_STYLE_MAP values", f"decoder calls Style.parse on `{norm(a) if a is not None else None}`, which is not a value of the literal SGR_STYLE_MAP: arbitrary input could raise StyleSyntaxError")
-    table = literal(am.global_assign("SGR_STYLE_MAP"))
+    from .common import table_value
+    table = table_value(am, "SGR_STYLE_MAP")
     from .common import style_parse_vocabulary
     _tv = style_parse_vocabulary(ctx)
     vocab = set(_tv[0]) if _tv is not None else None
